@@ -123,3 +123,28 @@ Proof.
     destruct H as (_ & _ & _ & _ & _ & _ & _ & _ & _ & _ & _ & _ & _ & H & _). discriminate.
   - eexists. split; [vm_compute; reflexivity|]. vm_compute. reflexivity.
 Qed.
+
+(* ---- tie to the Go source by translation (gen/SrcGen.v, regenerated on every run) ---- *)
+From Bio.gen Require SrcGen.
+From Bio.Proofs Require SrcGenProofs.
+
+(* the chunks of BED.Write are the translated Fprintf calls of the N-ladder applied to the
+   record's fields (the per-element calls of the two block lists have a computed format
+   and stay hand-modelled) *)
+Theorem C04_write_format_is_source : forall b cs,
+  Bio.Model.Bed.write_calls b = Ok cs ->
+  let n := Bio.Model.Bed.b_n b in
+  let '(r, g, bl) := Bio.Model.Bed.b_rgb b in
+  cs = [SrcGen.src_bed_Write_0 (Bio.Model.Bed.b_chrom b) (Bio.Model.Bed.b_start b) (Bio.Model.Bed.b_end b)]
+    ++ Bio.Model.Bed.when (n >? 3)%Z [SrcGen.src_bed_Write_1 (Bio.Model.Bed.b_name b)]
+    ++ Bio.Model.Bed.when (n >? 4)%Z [SrcGen.src_bed_Write_2 (Bio.Model.Bed.b_score b)]
+    ++ Bio.Model.Bed.when (n >? 5)%Z [SrcGen.src_bed_Write_3 (Bio.Model.Bed.b_strand b)]
+    ++ Bio.Model.Bed.when (n >? 6)%Z [SrcGen.src_bed_Write_4 (Bio.Model.Bed.b_thick_start b)]
+    ++ Bio.Model.Bed.when (n >? 7)%Z [SrcGen.src_bed_Write_5 (Bio.Model.Bed.b_thick_end b)]
+    ++ Bio.Model.Bed.when (n >? 8)%Z [SrcGen.src_bed_Write_6 (Z.of_N r) (Z.of_N g) (Z.of_N bl)]
+    ++ Bio.Model.Bed.when (n >? 9)%Z [SrcGen.src_bed_Write_7 (Bio.Model.Bed.b_block_count b)]
+    ++ Bio.Model.Bed.when (n >? 10)%Z (SrcGen.src_bed_Write_8 :: Bio.Model.Bed.list_calls (Bio.Model.Bed.b_block_sizes b))
+    ++ Bio.Model.Bed.when (n >? 11)%Z (SrcGen.src_bed_Write_9 :: Bio.Model.Bed.list_calls (Bio.Model.Bed.b_block_starts b))
+    ++ [SrcGen.src_bed_Write_10].
+Proof. exact SrcGenProofs.bed_write_is_source. Qed.
+Print Assumptions C04_write_format_is_source.
